@@ -6,6 +6,7 @@ import (
 	"bufio"
 	"bytes"
 	"context"
+	"crypto/sha256"
 	"encoding/json"
 	"errors"
 	"fmt"
@@ -65,6 +66,16 @@ type Scenario struct {
 	Seed    int64                 `json:"seed"`       // gate-release order of the drain
 	NoVal   bool                  `json:"novalidate"` // build the config without Validate()
 	Expect  map[string]any        `json:"expect,omitempty"`
+	// Spans: per context name, what span the request context carries.  Default: a live (recording) span of its own.
+	Spans map[string]SpanSpec `json:"spans,omitempty"`
+}
+
+// SpanSpec: kind "live" | "remote" (valid remote parent set by a propagator, not recording) | "unsampled" (valid, not
+// sampled, not recording); share: the name of another context (smaller in sort order) whose span this context also
+// carries - two requests of one traced stream with their own cancellation.
+type SpanSpec struct {
+	Kind  string `json:"kind"`
+	Share string `json:"share"`
 }
 
 // ---------------------------------------------------------------- runner
@@ -80,9 +91,21 @@ type heldExport struct {
 	ch chan string
 }
 
-type sinkErr struct{ k int }
+// sinkErr is the failure of export k in the next consumer.  under, when set, is what a downstream component's own
+// timeout or cancellation looks like: an error that wraps context.DeadlineExceeded / context.Canceled although the
+// context the export was called with is alive.
+type sinkErr struct {
+	k     int
+	under error
+}
 
-func (e sinkErr) Error() string { return fmt.Sprintf("sinkfail-%d", e.k) }
+func (e sinkErr) Error() string {
+	if e.under != nil {
+		return fmt.Sprintf("sinkfail-%d: %v", e.k, e.under)
+	}
+	return fmt.Sprintf("sinkfail-%d", e.k)
+}
+func (e sinkErr) Unwrap() error { return e.under }
 
 type runner struct {
 	sc  *Scenario
@@ -472,7 +495,9 @@ func (k *sink) consume(ctx context.Context, data any) error {
 	span := trace.SpanFromContext(ctx)
 	parent := ""
 	var links []any
+	observable := 0 // the export span is recording: its parent and links can be read
 	if ro, ok := span.(sdktrace.ReadOnlySpan); ok {
+		observable = 1
 		r.mu.Lock()
 		if ro.Parent().IsValid() {
 			parent = r.spanCtx[ro.Parent().SpanID()]
@@ -502,7 +527,7 @@ func (k *sink) consume(ctx context.Context, data any) error {
 	}
 	r.emit("ExportBegin", map[string]any{
 		"e": e, "x": ctxName(ctx), "a": countOf(data), "b": b2i(ctx.Err() != nil),
-		"k": meta, "items": items, "l": links, "c": parent,
+		"k": meta, "items": items, "l": links, "c": parent, "d": observable,
 	})
 	r.mu.Unlock()
 	res := ""
@@ -516,7 +541,11 @@ func (k *sink) consume(ctx context.Context, data any) error {
 		err = ctx.Err()
 		res = "ctxerr"
 	} else if res == "fail" {
-		err = sinkErr{e}
+		err = sinkErr{k: e}
+	} else if res == "faildl" {
+		err, res = sinkErr{k: e, under: context.DeadlineExceeded}, "fail"
+	} else if res == "failcx" {
+		err, res = sinkErr{k: e, under: context.Canceled}, "fail"
 	}
 	r.log("ExportEnd", map[string]any{"e": e, "k": res, "x": ctxName(ctx)})
 	return err
@@ -702,26 +731,61 @@ func runScenario(t *testing.T, sc *Scenario, tr int, out *bufio.Writer) {
 	ctxs := map[string]context.Context{}
 	cancels := map[string]context.CancelFunc{}
 	spans := map[string]trace.Span{}
+	spanName := map[string]string{} // context name -> name of the span it carries
 	names := make([]string, 0, len(sc.Callers))
 	for c := range sc.Callers {
 		names = append(names, c)
 	}
 	sort.Strings(names)
-	for _, c := range names {
-		cs := sc.Callers[c]
-		if _, ok := ctxs[cs.Ctx]; ok {
-			continue
+	for pass := 0; pass < 2; pass++ { // contexts with a span of their own first, then those that share one
+		for _, c := range names {
+			cs := sc.Callers[c]
+			if _, ok := ctxs[cs.Ctx]; ok {
+				continue
+			}
+			if _, target := sc.Callers[c], sc.Spans[cs.Ctx].Share; (target != "") != (pass == 1) {
+				continue
+			}
+			base := context.WithValue(context.Background(), tagKey{}, cs.Ctx)
+			base = client.NewContext(base, client.Info{Metadata: client.NewMetadata(cs.MD)})
+			spec := sc.Spans[cs.Ctx]
+			if other, ok := ctxs[spec.Share]; ok && spec.Share != "" {
+				// the same span as the other context, its own cancellation
+				base = trace.ContextWithSpan(base, trace.SpanFromContext(other))
+				spanName[cs.Ctx] = spanName[spec.Share]
+			} else {
+				spanName[cs.Ctx] = cs.Ctx
+				var id trace.SpanID
+				var tid trace.TraceID
+				hsh := sha256.Sum256([]byte(sc.ID + "/" + cs.Ctx))
+				copy(id[:], hsh[:8])
+				copy(tid[:], hsh[8:24])
+				switch spec.Kind {
+				case "remote":
+					sctx := trace.NewSpanContext(trace.SpanContextConfig{TraceID: tid, SpanID: id, TraceFlags: trace.FlagsSampled, Remote: true})
+					base = trace.ContextWithRemoteSpanContext(base, sctx)
+					r.mu.Lock()
+					r.spanCtx[id] = cs.Ctx
+					r.mu.Unlock()
+				case "unsampled":
+					sctx := trace.NewSpanContext(trace.SpanContextConfig{TraceID: tid, SpanID: id})
+					base = trace.ContextWithSpanContext(base, sctx)
+					r.mu.Lock()
+					r.spanCtx[id] = cs.Ctx
+					r.mu.Unlock()
+				default:
+					var sp trace.Span
+					base, sp = tracer.Start(base, "request-"+cs.Ctx)
+					r.mu.Lock()
+					r.spanCtx[sp.SpanContext().SpanID()] = cs.Ctx
+					r.mu.Unlock()
+					spans[cs.Ctx] = sp
+				}
+			}
+			cctx, cancel := context.WithCancel(base)
+			ctxs[cs.Ctx] = cctx
+			cancels[cs.Ctx] = cancel
 		}
-		base := context.WithValue(context.Background(), tagKey{}, cs.Ctx)
-		base = client.NewContext(base, client.Info{Metadata: client.NewMetadata(cs.MD)})
-		base, sp := tracer.Start(base, "request-"+cs.Ctx)
-		r.mu.Lock()
-		r.spanCtx[sp.SpanContext().SpanID()] = cs.Ctx
-		r.mu.Unlock()
-		cctx, cancel := context.WithCancel(base)
-		ctxs[cs.Ctx] = cctx
-		cancels[cs.Ctx] = cancel
-		spans[cs.Ctx] = sp
 	}
 
 	var wg sync.WaitGroup
@@ -746,7 +810,7 @@ func runScenario(t *testing.T, sc *Scenario, tr int, out *bufio.Writer) {
 			defer wg.Done()
 			r.mu.Lock()
 			r.gidProc[curGID()] = c
-			r.emit("Call", map[string]any{"c": c, "a": len(items), "x": cs.Ctx, "s": combo, "items": its})
+			r.emit("Call", map[string]any{"c": c, "a": len(items), "x": cs.Ctx, "s": combo, "items": its, "k": spanName[cs.Ctx]})
 			r.mu.Unlock()
 			close(ready)
 			err := consume(ctxs[cs.Ctx], data)
@@ -774,7 +838,7 @@ func runScenario(t *testing.T, sc *Scenario, tr int, out *bufio.Writer) {
 		combo := comboString(r.keys, func(k string) []string { return mdGet(cs.MD, k) })
 		wg.Add(1)
 		r.mu.Lock()
-		r.emit("Call", map[string]any{"c": c, "a": len(items), "x": cs.Ctx, "s": combo, "items": its})
+		r.emit("Call", map[string]any{"c": c, "a": len(items), "x": cs.Ctx, "s": combo, "items": its, "k": spanName[cs.Ctx]})
 		r.mu.Unlock()
 		registered := make(chan struct{})
 		go func() {
